@@ -62,7 +62,19 @@ def run_driver(driver, trace_lines, workdir):
 
 def execute(ctx, cases):
     """Run all cases on the implementation and the model.
-    Returns (failures, stats).  Each case starts with an implicit harness `reset`."""
+    Returns (failures, stats).  Each case starts with an implicit harness `reset`.
+    Cases with meta['no_driver'] (token-level abuse programs: a model replay is not meaningful) run on the harness only and
+    are judged for survival alone."""
+    nd = [c for c in cases if c.meta.get('no_driver')]
+    if nd and len(nd) < len(cases):
+        f1, s1 = execute(ctx, [c for c in cases if not c.meta.get('no_driver')])
+        f2, s2 = execute(ctx, nd)
+        for k in ('lines', 'fatal', 'cases', 'diff', 'rel'):
+            s1[k] += s2[k]
+        for k, v in s2['ok_tags'].items():
+            s1['ok_tags'][k] = s1['ok_tags'].get(k, 0) + v
+        return f1 + f2, s1
+    harness_only = bool(nd)
     failures = []
     stats = {'lines': 0, 'ok_tags': {}, 'fatal': 0, 'nontrivial_keys': set(), 'cases': 0, 'diff': 0, 'rel': 0}
     pending = list(cases)
@@ -90,7 +102,11 @@ def execute(ctx, cases):
             crashed = rc != 0
         n_complete = done if done <= len(lines) else len(lines)
         # judge completed lines
-        verdicts = run_driver(ctx['driver'], trace[:n_complete], ctx['rundir']) if n_complete else []
+        if harness_only:
+            # no model replay: every completed line counts as answered (`ok` / `err` is not judged)
+            verdicts = ['OK abuse.' + ('err' if ' => err' in t else 'answered') for t in trace[:n_complete]]
+        else:
+            verdicts = run_driver(ctx['driver'], trace[:n_complete], ctx['rundir']) if n_complete else []
         for k in range(n_complete):
             ci, li = owner[k]
             if li < 0:
